@@ -163,6 +163,8 @@ class AccfgGen:
             node["body"] = head + self.stmts(r.randint(1, 3), inner, depth + 1, True)
             if p.get("state_loops") and not node["carry"] and r.random() < p["state_loops"]:
                 node["carry_state"] = r.randrange(p["n_acc"])  # emitted as a loop that already carries that accelerator's state, if its body is simple enough
+                if p.get("head_launch") and r.random() < p["head_launch"]:
+                    node["head_launch"] = True  # the body first launches the configuration it was entered with (software-pipelined form)
             elif p.get("while_loops") and not node["carry"] and r.random() < p["while_loops"]:
                 node["as_while"] = True  # the same counted loop written as scf.while (a region op state tracing does not know)
             for c in node["carry"]:
@@ -312,6 +314,13 @@ def emit(ast, acc_names=None, vty="i32", decls=()) -> str:
         e(ind, f'{res} = scf.for {s["iv"]} = {s["lb"]} to {s["ub"]} step {s["step"]} iter_args({arg} = {init}) -> (!accfg.state<"{an}">) {{')
         e(ind + 1, f'{s["ic"]} = arith.index_cast {s["iv"]} : index to {vty}')
         inner: dict = {a: arg}
+        if s.get("head_launch"):
+            first = next(x for x in s["body"] if x["k"] == "sl")
+            lv = first.get("lvals", [])
+            lnames = ", ".join(f'"{n}"' for n in names[a].get("launch_fields", [])[: len(lv)])
+            tk = fresh("t")
+            e(ind + 1, f'{tk} = "accfg.launch"({"".join(f"{v}, " for v in lv)}{arg}) <{{param_names = [{lnames}], accelerator = "{an}"}}> : ({"".join(f"{vty}, " for _ in lv)}!accfg.state<"{an}">) -> !accfg.token<"{an}">')
+            e(ind + 1, f'"accfg.await"({tk}) : (!accfg.token<"{an}">) -> ()')
         for x in s["body"]:
             stmt(ind + 1, x, inner[a] if x["k"] == "sl" else None, inner)
         e(ind + 1, f'scf.yield {inner[a]} : !accfg.state<"{an}">')
@@ -496,6 +505,8 @@ def shrink_body(body):
             if s.get(key):
                 for nb in shrink_body(s[key]):
                     yield body[:i] + [dict(s, **{key: nb})] + body[i + 1 :]
+        if k == "for" and s.get("head_launch"):
+            yield body[:i] + [{kk: vv for kk, vv in s.items() if kk != "head_launch"}] + body[i + 1 :]
         if k == "for":
             for fld, simple in (("lb", "%c0"), ("step", "%c1"), ("ub", "%c1"), ("ub", "%c2")):
                 if s[fld] != simple and not (fld == "ub" and s[fld] in ("%c1", "%c2")):
